@@ -107,3 +107,29 @@ Proof.
     cbn in Hb. destruct Hb as [<-|[]]. cbn in Hc. destruct Hc as [<-|[]]. cbn. lia.
   - vm_compute. reflexivity.
 Qed.
+
+(* ------------------------------------------------------------------ link between the evaluators *)
+From Akita Require Import C01.Exec C02.Exec C02.ProofsLink.
+
+(** On every well-formed case (script without negative offsets, clock not set after a queued event)
+    agreement of the model with the observed behaviour of timing.SerialEngine ([Exec.check_case])
+    implies the property predicate on the observed behaviour ([Exec.holds_on]: every RunUntil segment
+    only handled events <= its boundary, left only later events queued, clock at the last handled
+    event; concatenated segments = the observed single Run). *)
+Theorem c02_model_agreement_implies_property : forall c, wf2 c -> check_case c = true -> holds_on c = true.
+Proof. exact check_implies_holds2. Qed.
+Print Assumptions c02_model_agreement_implies_property.
+
+(** the hypotheses of the link theorem are satisfiable (observations taken from the model itself) *)
+Example c02_link_nonvacuous :
+  let bs := [25; 25; 50; 50; 1000] in
+  let c := mk_case2 ex_chain 9 [(10, 0, false, 20)] 0 false bs
+             (map (proj_result false) (run_script_segments_at ex_chain 9 [(10, 0, false, 20)] 0 bs))
+             (proj_result false (run_script_at ex_chain 9 [(10, 0, false, 20)] 0)) in
+  wf2 c /\ check_case c = true /\ holds_on c = true /\ length (o_segs c) = 6%nat.
+Proof.
+  cbv zeta. split; [|vm_compute; repeat split; reflexivity]. split.
+  - intros alts alt sp Ha Hb Hc. cbn in Ha. destruct Ha as [<-|[]].
+    cbn in Hb. destruct Hb as [<-|[]]. cbn in Hc. destruct Hc as [<-|[]]. cbn. lia.
+  - intros e He. cbn [d_t0]. lia.
+Qed.
